@@ -426,3 +426,8 @@ fn znx_normalize_final_step_assign(base2k: usize, lsh: usize, x: &mut [i64], car
         });
     }
 }
+
+#[cfg(kani)]
+mod verif_kani {
+    include!(concat!(env!("POULPY_VERIF_KX"), "/hal/encoding.rs"));
+}
